@@ -134,3 +134,11 @@ def targets():
     from . import dataflow as DF
     ts += [DF.target_kk_producer("_use_matrix_inversion", "_inversion_test"), DF.target_kk_producer("_use_least_squares_fitting", "_leastsq_test")]
     return ts
+
+
+_targets_before_purity = targets
+
+
+def targets():      # noqa: F811
+    from . import purity
+    return _targets_before_purity() + [purity.target_modules(["analysis/kramers_kronig/utility", "analysis/kramers_kronig/least_squares", "analysis/kramers_kronig/matrix_inversion", "analysis/kramers_kronig/cnls"], "Kramers-Kronig modules keep no state between calls")]
